@@ -80,8 +80,27 @@ func equalsVisit(a, b Object, v *visit) bool {
 		return a.equalsVisit(b, v)
 	case *Map:
 		return a.equalsVisit(b, v)
+	case *Entry:
+		return a.equalsVisit(b, v)
 	}
 	return Equals(a, b)
+}
+
+// An entry holds the value of a container's item. The list it came from can
+// be stored in that list afterwards, so the walk goes on with the same record.
+func (e *Entry) equalsVisit(other Object, v *visit) bool {
+	otherEntry, ok := other.(*Entry)
+	if !ok {
+		return false
+	}
+	return equalsVisit(e.key, otherEntry.key, v) && equalsVisit(e.value, otherEntry.value, v)
+}
+
+func (e *Entry) interfaceVisit(v *visit) interface{} {
+	return map[string]interface{}{
+		"key":   interfaceVisit(e.key, v),
+		"value": interfaceVisit(e.value, v),
+	}
 }
 
 func (ls *List) equalsVisit(other Object, v *visit) bool {
@@ -174,6 +193,8 @@ func interfaceVisit(obj Object, v *visit) interface{} {
 	case *List:
 		return obj.interfaceVisit(v)
 	case *Map:
+		return obj.interfaceVisit(v)
+	case *Entry:
 		return obj.interfaceVisit(v)
 	}
 	return obj.Interface()
